@@ -162,8 +162,10 @@ Definition observed_edges (F : func) (t : list config) : list (mark * unode) :=
    theorem is named [_partial]): sub-cell pointers (FieldAddr / IndexAddr results are not pointers here: a store
    through them writes nothing), maps / slices / channels, globals, pointers received as parameters or from calls, and
    pointers that escape to a callee which writes through them.  The fragment's side condition [addr_alloc] (boolean
-   [check_addr_alloc]) says every register used as the address of a store or load is defined by Alloc instructions
-   only; copies of the pointer may exist but are never dereferenced, so no two dereferenced registers alias. *)
+   [check_addr_alloc]) says every register used as the address of a store or load HAS a defining instruction and is
+   defined by Alloc instructions only (a dereferenced parameter / free variable / global has no defining instruction
+   and puts the function outside the fragment); copies of the pointer may exist but are never dereferenced, so no two
+   dereferenced registers alias. *)
 
 Record hfunc := {
   h_func  : func;
@@ -287,10 +289,14 @@ Definition loads_ok (H : hfunc) : Prop :=
 Definition addr (H : hfunc) (a : value) : Prop :=
   (exists p x, PositiveMap.find p (h_store H) = Some (a, x)) \/ (exists p, PositiveMap.find p (h_load H) = Some a).
 
-(* the fragment: every dereferenced register is defined by Alloc instructions only *)
+(* the fragment: every dereferenced register HAS a defining instruction (so it is not a parameter, free variable or
+   global, whose cells this semantics does not model: a store through them would write nothing) and all its defining
+   instructions are Allocs *)
 Definition addr_alloc (H : hfunc) : Prop :=
-  forall a, addr H a -> forall p i, PositiveMap.find p (f_instr (h_func H)) = Some i -> i_def i = Some a ->
-  PositiveSet.mem p (h_alloc H) = true.
+  forall a, addr H a ->
+  (exists p i, PositiveMap.find p (f_instr (h_func H)) = Some i /\ i_def i = Some a) /\
+  (forall p i, PositiveMap.find p (f_instr (h_func H)) = Some i -> i_def i = Some a ->
+   PositiveSet.mem p (h_alloc H) = true).
 
 Definition check_loads_ok (H : hfunc) : bool :=
   forallb (fun pa => match PositiveMap.find (fst pa) (f_instr (h_func H)) with
@@ -315,11 +321,13 @@ Definition check_store_closed (H : hfunc) (l : list fact) : bool :=
 Definition addr_regs (H : hfunc) : list value :=
   map (fun pax => fst (snd pax)) (PositiveMap.elements (h_store H)) ++ map snd (PositiveMap.elements (h_load H)).
 
+Definition defines_reg (a : value) (pi : point * instr) : bool :=
+  match i_def (snd pi) with Some r => Pos.eqb r a | None => false end.
+
 Definition check_addr_alloc (H : hfunc) : bool :=
-  forallb (fun a => forallb (fun pi => match i_def (snd pi) with
-                                       | Some r => if Pos.eqb r a then PositiveSet.mem (fst pi) (h_alloc H) else true
-                                       | None => true
-                                       end) (PositiveMap.elements (f_instr (h_func H)))) (addr_regs H).
+  forallb (fun a => existsb (defines_reg a) (PositiveMap.elements (f_instr (h_func H))) &&
+                    forallb (fun pi => if defines_reg a pi then PositiveSet.mem (fst pi) (h_alloc H) else true)
+                            (PositiveMap.elements (f_instr (h_func H)))) (addr_regs H).
 
 Definition hobserved_edges (H : hfunc) (t : list hconfig) : list (mark * unode) :=
   flat_map (fun c => flat_map (fun vu => map (fun m => (m, snd vu))
